@@ -790,7 +790,10 @@ func ruleExhPayload(c *Ctx, r *R) {
 			r.bad("swallow:"+fname, site, "recover() whose result is not inspected: every panic, including a host interrupt, is swallowed")
 			continue
 		}
-		if caseTypes["*exception"] {
+		// a site that unwraps the exception (eject) must understand every payload kind; a site that treats every script
+		// exception alike (no eject) has nothing to distinguish
+		ejects := len(staticCallsIn(fn, "eject")) > 0
+		if caseTypes["*exception"] && ejects {
 			for _, want := range []string{"ottoError", "Value"} {
 				r.check(caseTypes[want], "case:"+fname+":"+want, site, "handled", "recover site unwraps *exception but has no case for an ejected "+want)
 			}
